@@ -13,6 +13,7 @@ from ..core import rule, AnalysisError
 from ..engine import pattern as P
 from ..engine.facts import dotted, const, src, walk_func, enclosing_stmt
 from .common import calls, pn, access_paths
+from . import c10  # xml-table (what the `x` flag denotes) is registered for C02 there
 
 
 def _component(e):
@@ -215,3 +216,34 @@ def guard(ctx):
     me = db.func("lexer.Lexer.match_expression")
     t = src(me)
     ctx.check("parse_until_text(True, '\\\\|', '}')" in t and "parse_until_text(True, '}')" in t, "scanner-nesting", db.where(me), "the expression scanner does not watch bracket nesting for | and }", "watch_nesting=True for both scans")
+
+
+# the documented flag names (docs/filtering.rst) and what they denote
+FLAGS = {"x": "filters.xml_escape", "h": "filters.html_escape", "u": "filters.url_escape", "trim": "filters.trim", "entity": "filters.html_entities_escape",
+         "unicode": "str", "str": "str", "decode": "decode", "n": "n"}
+
+
+@rule("C02.flag-table", min_instances=12)
+def flag_table(ctx):
+    """the built-in flag names denote the documented functions: DEFAULT_ESCAPES maps each flag to the documented name, that name is what filters.py defines, and the emitted module imports `filters`"""
+    db = ctx.db
+    tbl = db.module_assign("filters", "DEFAULT_ESCAPES")
+    ctx.require(isinstance(tbl, ast.Dict), "filters.DEFAULT_ESCAPES is not a dict literal")
+    have = {const(k): const(v) for k, v in zip(tbl.keys, tbl.values)}
+    for k, v in FLAGS.items():
+        ctx.check(have.get(k) == v, "flag:" + k, db.where(tbl), "flag `%s` denotes %r, documented as %s" % (k, have.get(k), v), "%s -> %s" % (k, v))
+    extra = sorted(set(have) - set(FLAGS))
+    ctx.note("additional_flags", extra)
+    # what the names are bound to in filters.py
+    m = db.mod("filters")
+    he = db.module_assign("filters", "html_escape")
+    ctx.check(dotted(he) == "markupsafe.escape", "denotes:h", db.where(he), "html_escape is %s" % src(he), "markupsafe.escape")
+    ue = db.func("filters.url_escape")
+    ctx.check(P.has(ue, "$s = %s.encode('utf8')\nreturn quote_plus($s)" % pn(ue, 0)) or P.has(ue, "return quote_plus(%s.encode('utf8'))" % pn(ue, 0)), "denotes:u", db.where(ue), "url_escape is not quote_plus of the UTF-8 octets", "quote_plus(utf-8 octets)")
+    tr = db.func("filters.trim")
+    ctx.check(P.has(tr, "return %s.strip()" % pn(tr, 0)), "denotes:trim", db.where(tr), "trim is not str.strip()", "string.strip()")
+    en = db.module_assign("filters", "html_entities_escape")
+    ctx.check(src(en) == "_html_entities_escaper.escape_entities", "denotes:entity", db.where(en), "html_entities_escape is %s" % src(en), "escape_entities of the HTML entity table")
+    wt = db.func("codegen._GenerateRenderMethod.write_toplevel")
+    imp = [c for c in calls(wt, "self.printer.writeline") if const(c.args[0]) and str(const(c.args[0])).startswith("from mako import") and "filters" in str(const(c.args[0]))]
+    ctx.check(bool(imp), "module-imports-filters", db.where(wt), "generated modules do not import mako.filters: the `filters.` names the flags denote are unbound", "from mako import ... filters ...")
